@@ -46,7 +46,17 @@ func VerifC19_refund_by_third_party() {
 	bank.set(vbAcc(T), t0)
 	bctx := ctx.WithBlockTime(time.Unix(100, 0).UTC())
 	ms := NewMsgServerImpl(k)
-	switch ndPick("message", 2) {
+	switch ndPick("message", 3) {
+	case 2:
+		// the same for a dispute that failed in prevote (what is refunded there is known finding C13-F2; who gets it is
+		// what matters here)
+		d.DisputeStatus = types.Failed
+		must(k.Disputes.Set(ctx, id, d))
+		_, err := ms.WithdrawFeeRefund(bctx, &types.MsgWithdrawFeeRefund{CallerAddress: sdk.AccAddress(T).String(), PayerAddress: sdk.AccAddress(P).String(), Id: id})
+		ndReach("refund-of-a-failed-dispute")
+		ndAssert(err == nil, "anyone-may-trigger-the-refund")
+		ndAssert(bank.get(vbAcc(T)).Equal(t0), "the-signer-gains-nothing")
+		ndAssert(bank.get(vbAcc(P)).IsPositive(), "the-payer-receives-the-refund")
 	case 0:
 		_, err := ms.WithdrawFeeRefund(bctx, &types.MsgWithdrawFeeRefund{CallerAddress: sdk.AccAddress(T).String(), PayerAddress: sdk.AccAddress(P).String(), Id: id})
 		ndReach("refund")
